@@ -10,11 +10,15 @@ Definition sstep_model_ok (p p' : list ltable) (s : sstepobs) : bool :=
   | SPlain o => step_model_ok p p' {| so_op := o; so_out := ss_out s; so_dumps := ss_dumps s; so_pyok := ss_pyok s |}
   | _ => true
   end.
-Fixpoint model_ssteps (p : list ltable) (steps : list sstepobs) : bool :=
+Fixpoint model_ssteps (w : world) (p : list ltable) (steps : list sstepobs) : bool :=
   match steps with
   | [] => true
   | s :: r =>
-      let p' := apply_dumps p (ss_dumps s) in
-      sstep_model_ok p p' s && model_ssteps p' r
+      let '(w', out) := sstep w (ss_op s) in
+      match out with
+      | OutOfModel => true
+      | _ => let p' := apply_dumps p (ss_dumps s) in
+             sstep_model_ok p p' s && model_ssteps w' p' r
+      end
   end.
-Definition shist_model_ok (steps : list sstepobs) (final : list ltable) : bool := model_ssteps [] steps.
+Definition shist_model_ok (steps : list sstepobs) (final : list ltable) : bool := model_ssteps w0 [] steps.
